@@ -43,12 +43,12 @@ CHECKS['C17'] = {
                    'lengths concentrated on 0,1,2,7,14..17,31..33,64 so nearly every history crosses the 15/16 small-buffer boundary, and self-aliasing '
                    'operands in a dozen operation kinds. Held = no disagreement and no memory error on everything generated.'),
     'level_note': 'Trusted: std::string / libc string functions as the ideal byte string; each String method\'s doc comment as its contract. Search needles are non-empty (the doc comment does not decide the empty needle at fromIndex==Length()).',
-    'rule': ('Byte-decoded histories (<=120 ops over 48 kinds) on two String objects compared with std::string models after every op. Non-trivial: an operation moved '
+    'rule': ('Byte-decoded histories (<=120 ops over 50 kinds incl. String-typed and case-insensitive searches with a start index, with needles taken from the bytes the String held before it last became shorter) on two String objects compared with std::string models after every op. Non-trivial: an operation moved '
              'the length across the 15/16 small-buffer boundary in either direction, or had an operand aliasing the String itself. Distinct: hash of the decoded op/argument bytes.'),
     'assumptions': ['numeric-parse member functions do not exist in util/String.h at this commit; Arg() substitution is checked on templates with single-digit tokens and %-free values'],
     'targets': [
         {'name': 'c17_string', 'src': ['harness/C17_string.cpp'], 'quick_n': 6000000, 'thorough_n': 48000000, 'maxlen': 300, 'min_nontrivial': 400000,
-         'class_floors': {'case_crossing_small_buffer_boundary': 100000, 'case_with_aliasing_operand': 100000, 'unflatten_truncated_rejected': 1000}},
+         'class_floors': {'case_crossing_small_buffer_boundary': 100000, 'case_with_aliasing_operand': 100000, 'unflatten_truncated_rejected': 1000, 'case_search_for_bytes_left_behind_the_terminator': 50000}},
     ],
 }
 
@@ -225,7 +225,7 @@ CHECKS['C08'] = {
     'targets': [
         {'name': 'c08_wire', 'src': ['harness/C08_wire.cpp'], 'ccodecs': True, 'quick_n': 1500000, 'thorough_n': 12000000, 'maxlen': 500, 'min_nontrivial': 200000,
          'worker_env': _c08_worker_env, 'post': _c08_post, 'replay_hook': _c08_replay, 'replay_aliases': ['c08_python'],
-         'class_floors': {'case_python_safe': 50000, 'case_nesting_ge_1': 20000, 'case_three_or_more_field_types': 50000, 'emitted_for_python_peer': 20000, 'case_with_zero_length_raw_item': 10000}},
+         'class_floors': {'case_python_safe': 50000, 'case_nesting_ge_1': 20000, 'case_three_or_more_field_types': 50000, 'emitted_for_python_peer': 20000, 'case_with_zero_length_raw_item': 10000, 'micro_gateway_frame_streams_checked': 100000, 'micro_gateway_stream_with_buffer_full_episodes': 20000}},
     ],
 }
 
@@ -265,14 +265,14 @@ CHECKS['C12'] = {
     'technique': 'fault-injection property testing: generated Message sequences through the real tunnel gateways over an in-memory datagram transport with generated loss/duplication/reordering/replay plans (exhaustive over {deliver,drop,duplicate,swap}^n for packet sequences of <= 6, sampled beyond) and would-block writes; membership oracle for safety, equality oracle for fault-free completeness',
     'level_text': ('For every generated configuration (tunnel kind, MTU from the minimum up, slave gateway, compression level, 1-3 senders by source address, message-id counter started just below 2^32) the packets a sender emits are delivered to fresh receivers under fault plans: '
                    'all 4^n plans for sequences of up to 6 packets, sampled plans (incl. replay of old packets) for longer ones. Safety is checked on every plan: each delivered Message is bit-identical to one that sender sent. Completeness is checked on fault-free plans, also with would-block (0-byte) writes on the sending side. Held = no plan violated either clause.'),
-    'level_note': ('Trusted: the in-memory datagram transport. The mini tunnel drops a Message larger than one packet payload by design (modelled). With a slave gateway on a packet transport Messages are kept below the compile-time UDP payload size while known finding F25 stands (counted).'),
+    'level_note': ('Trusted: the in-memory datagram transport (half of the receivers read through the library\'s own ByteBufferPacketDataIO instead, and a share of the fault-free cases runs the tunnel over the library\'s PacketizedProxyDataIO on a byte pipe read in generated segment sizes). The mini tunnel drops a Message larger than one packet payload by design (modelled). With a slave gateway on a packet transport Messages are kept below the compile-time UDP payload size while known finding F25 stands (counted).'),
     'rule': ('Byte-decoded cases; fault mode = first bytes. Non-trivial: (sampled) a fault hit a sequence containing a multi-fragment Message or >= 3 packets; (exhaustive) >= 2 packets with a multi-fragment Message or several senders; (fault-free) a Message spanning >= 3 packets, or >= 2 packets for the mini tunnel. '
              'Distinct: hash of (configuration, sent bytes, fault mode). exhaustive_fault_plans counts the enumerated plans.'),
     'assumptions': [],
     'evidence_extra': lambda pt: {'exhaustive_fault_plans_enumerated': pt['c12_tunnel']['classes'].get('exhaustive_fault_plans', 0), 'exhaustive_note': 'each exhaustive plan set enumerates all 4^n {deliver,drop,duplicate,swap-with-next} plans of one generated packet sequence (n <= 6); the space of sequences itself is sampled, so exhaustive=false overall'},
     'targets': [
         {'name': 'c12_tunnel', 'src': ['harness/C12_tunnel.cpp'], 'quick_n': 300000, 'thorough_n': 2400000, 'maxlen': 400, 'min_nontrivial': 50000, 'budget': 60,
-         'class_floors': {'mini_tunnel': 20000, 'packet_tunnel': 20000, 'exhaustive_plan_sets': 3000, 'message_id_wraparound': 3000, 'several_senders': 20000, 'with_slave_gateway': 20000, 'mode_fault_free_with_would_block_writes': 10000}},
+         'class_floors': {'mini_tunnel': 20000, 'packet_tunnel': 20000, 'exhaustive_plan_sets': 3000, 'message_id_wraparound': 3000, 'several_senders': 20000, 'with_slave_gateway': 20000, 'mode_fault_free_with_would_block_writes': 10000, 'receiver_on_library_ByteBufferPacketDataIO': 50000, 'mode_packetized_stream_transport': 5000}},
     ],
 }
 
@@ -297,35 +297,35 @@ CHECKS['C18'] = {
 CHECKS['C11'] = {
     'level': 'exploration',
     'technique': 'schedule-exploring property testing: the real muscle::Thread (both signalling mechanisms) runs on the harness-owned scheduler (hooks in Mutex, WaitCondition, Thread lifecycle and the socket wait); generated send/receive/start/shutdown/restart scripts; exactly-once and per-sender FIFO invariants over the history; deadlock detection for lost wake-ups',
-    'level_text': ('Generated (script, schedule) search: owner plus 0-2 extra sender threads send numbered Messages to an echo thread; the owner receives with zero, finite and infinite deadlines; Messages may be queued before start; shutdown+wait; restart of the same Thread object; every context switch and timeout firing is chosen by the schedule bytes. '
+    'level_text': ('Generated (script, schedule) search: owner plus 0-2 extra sender threads send numbered Messages to an echo thread; the owner receives with zero, finite and infinite deadlines; Messages may be queued before start (also with the socket pair allocated beforehand); the internal thread runs the stock loop or an event loop of its own that blocks on the wake-up socket; shutdown+wait, also with replies still uncollected (they must all be there after the join); restart of the same Thread object; every context switch and timeout firing is chosen by the schedule bytes. '
                    'Oracle: replies arrive exactly once and in per-sender order, nothing arrives after shutdown, ShutdownInternalThread(true) returns, and no state is reached where every thread is blocked (a lost wake-up is reported as DEADLOCK with the schedule). Held = no explored schedule violated these.'),
     'level_note': SC_NOTE + ' An untimed receive may return B_TIMED_OUT on a stale signal byte (the library\'s own loop treats that as recoverable); scripts retry and count it.',
     'rule': ('Byte-decoded cases: configuration + receive plan + schedule. Non-trivial: at least one preemption and at least two block-then-wake events (so sends and waits actually interleaved). Distinct: hash of configuration and of the choices made.'),
     'assumptions': [],
     'targets': [
         {'name': 'c11_thread', 'src': ['harness/C11_thread.cpp'], 'quick_n': 150000, 'thorough_n': 1200000, 'maxlen': 300, 'min_nontrivial': 20000, 'budget': 120,
-         'class_floors': {'signalling_socket_pair': 3000, 'signalling_wait_condition': 3000, 'case_messages_queued_before_start': 3000, 'case_restart_of_same_thread_object': 2000, 'case_extra_sender_threads': 3000}},
+         'class_floors': {'signalling_socket_pair': 3000, 'signalling_wait_condition': 3000, 'case_messages_queued_before_start': 3000, 'case_restart_of_same_thread_object': 2000, 'case_extra_sender_threads': 3000, 'case_own_event_loop_blocking_on_the_wakeup_socket': 5000, 'case_own_loop_with_sockets_and_messages_before_start': 500, 'case_replies_collected_after_join': 3000, 'case_restart_after_join_with_replies_uncollected': 1000}},
     ],
 }
 
 CHECKS['C19'] = {
     'level': 'exploration',
     'technique': 'schedule-exploring property testing: the real ThreadPool (its pool threads are ordinary muscle Threads that register with the scheduler when the pool demand-starts them) runs on the harness-owned scheduler; generated submission / unregister / re-register scripts from several threads; handler activation log as the history; deadlock detection',
-    'level_text': ('Generated (script, schedule) search: pool sizes 1-3, 1-4 clients, 1-3 submitting threads, handlers that yield inside, unregistration from non-pool threads with Messages still outstanding, re-registration, pool destruction. '
+    'level_text': ('Generated (script, schedule) search: pool sizes 1-3, 1-4 clients, 1-3 submitting threads, handlers that yield inside, unregistration from non-pool threads with Messages still outstanding, re-registration, pool destruction after everything was unregistered or with clients still registered and handlers in flight. '
                    'Oracle over the activation log: per client exactly-once and in submission order, never two activations of one client at once, never more activations than pool threads, unregister returns only when everything submitted has been handled and no handler is running, every submitted Message is handled by the end, destruction returns, no deadlock. Held = no explored schedule violated these.'),
     'level_note': SC_NOTE,
     'rule': ('Byte-decoded cases: configuration + per-submitter scripts + schedule. Non-trivial: an unregistration was issued while Messages of that client were still outstanding, or >= 2 handlers ran in parallel with at least one preemption. Distinct: hash of configuration, scripts and choices.'),
-    'assumptions': ['clients are unregistered before they and the pool are destroyed (documented requirement)'],
+    'assumptions': ['clients are unregistered before they themselves are destroyed (documented requirement); the pool may be destroyed first, with clients still registered and Messages pending (a quarter of the cases): its shutdown un-registers them', 'the pool is destroyed only after the submitting threads have finished (a submission racing with the destructor is not a supported use)'],
     'targets': [
         {'name': 'c19_threadpool', 'src': ['harness/C19_threadpool.cpp'], 'quick_n': 100000, 'thorough_n': 800000, 'maxlen': 400, 'min_nontrivial': 20000, 'budget': 120,
-         'class_floors': {'case_handlers_ran_in_parallel': 5000, 'case_more_clients_than_pool_threads': 15000, 'case_unregister_with_messages_outstanding': 10000}},
+         'class_floors': {'case_handlers_ran_in_parallel': 5000, 'case_more_clients_than_pool_threads': 15000, 'case_unregister_with_messages_outstanding': 10000, 'case_pool_destroyed_with_clients_registered': 10000, 'case_pool_destroyed_with_messages_pending': 2000}},
     ],
 }
 
 CHECKS['C10'] = {
     'level': 'exploration',
     'technique': 'schedule-exploring property testing: Ref<>/RefCountable/ObjectPool on the harness-owned scheduler with yield points before and after every atomic reference-count operation and around the pool mutex; generated reference-manipulation scripts; identity-stamp and release-state-machine invariants; plus a free-running ThreadSanitizer supplement for atomicity of the primitives',
-    'level_text': ('Generated (script, schedule) search: 1-3 threads x 2-8 operations (copy, reset, obtain from a small pool or from the heap, swap, move, const-cast, publish to / take from a mutex-guarded mailbox, temporaries, non-counting references switched to counting and back by assignment and in place) over ObjectPool<Obj,128> with maxPoolSize 0-4 so slabs are created, recycled and deleted within a run; single-threaded histories included. '
+    'level_text': ('Generated (script, schedule) search: 1-3 threads x 2-8 operations (copy, reset, obtain from a small pool or from the heap, swap, move, const-cast, publish to / take from a mutex-guarded mailbox, temporaries, non-counting references switched to counting and back by assignment and in place, ObjectPool::Drain() in mid-history) over ObjectPool<Obj,128> with maxPoolSize 0-4 so slabs are created, recycled and deleted within a run; single-threaded histories included. '
                    'Oracle: a referenced object keeps its identity stamp, liveness mark and a count of at least the thread\'s own counting references (exactly the number of counting references in single-threaded histories); an obtained object is in default state, unowned and count 0; no object is released twice; constructor and destructor counts agree once the pool is gone; ObjectPool::PerformSanityCheck; ASan for use-after-free/double free. '
                    'Second target (c10_tsan): the same operations free-running on 8 real threads under ThreadSanitizer, which sees what the scheduler cannot (loss of atomicity inside a primitive, a dropped mutex guard). Held = no explored schedule and no TSan run reported a problem; TSan silence proves nothing beyond the runs made.'),
     'level_note': SC_NOTE,
@@ -333,7 +333,7 @@ CHECKS['C10'] = {
     'assumptions': [],
     'targets': [
         {'name': 'c10_refcount', 'src': ['harness/C10_refcount.cpp'], 'quick_n': 600000, 'thorough_n': 4800000, 'maxlen': 300, 'min_nontrivial': 50000, 'budget': 120,
-         'class_floors': {'case_single_threaded_history': 50000, 'case_multi_threaded': 200000, 'case_final_release_by_another_thread': 50000, 'case_non_counting_reference_switched_to_counting': 10000}},
+         'class_floors': {'case_single_threaded_history': 50000, 'case_multi_threaded': 200000, 'case_final_release_by_another_thread': 50000, 'case_non_counting_reference_switched_to_counting': 10000, 'case_pool_drained_in_mid_history': 50000}},
         {'name': 'c10_tsan', 'src': ['harness/C10_tsan.cpp'], 'variant': 'tsan', 'fuzz': False, 'coverage': False, 'quick_n': 24000, 'thorough_n': 192000, 'maxlen': 16, 'min_nontrivial': 5000, 'budget': 300, 'repro_min': 1,
          'class_floors': {'thread_echo_runs': 1000}},
     ],
@@ -373,14 +373,14 @@ CHECKS['C13'] = {
 CHECKS['C05'] = {
     'level': 'exploration',
     'technique': 'differential property testing on the real server run in-process: (a) generated multi-key routed Messages, per-inbox copy counts against receivers computed clause by clause from the published node sets; (b) one multi-key traversal (GETDATA) against PathMatcher::MatchesPath applied to every node path',
-    'level_text': ('(a) Four sessions on two hosts publish generated node sets, optionally enable reflect-to-self or a default route, and replace or remove the default route in mid-history; 1-8 Messages are sent with 0-3 keys (absolute with literal or wildcard host/session clauses, relative, session level or node levels, equal and different depths), optional filters, forged session fields, interleaved with server steps. Each inbox must hold exactly one copy for each selected session and none otherwise, in per-sender order, naming the true sender. '
+    'level_text': ('(a) Four sessions on two hosts publish generated node sets, optionally enable reflect-to-self or a default route, and replace or remove the default route in mid-history; 1-8 Messages are sent with 0-3 keys (absolute with literal or wildcard host/session clauses, relative, session level or node levels, equal and different depths, now and then a key with a clause that does not compile), optional filters, forged session fields, interleaved with server steps. Each inbox must hold exactly one copy for each selected session and none otherwise, in per-sender order, naming the true sender. '
                    '(b) Three publishers (node names incl. literal "a,b" and "a*") and an observer that sends one GETDATA with 1-4 keys over 19 clause forms: the reply\'s node set must equal the set MatchesPath selects over all node paths, with no path reported twice. Held = equal on everything generated.'),
     'level_note': RH_NOTE + ' The multi-pattern traversal is exercised as ONE multi-key NodePathMatcher traversal, as the server performs it (a union of single-pattern traversals hides the conspiracy guard and the skip-to-next-session logic).',
     'rule': ('Byte-decoded cases, half routing, half traversal. Non-trivial: the Message / GETDATA carries two keys of equal depth, or keys of different depths (routing), or a key mixing literal and wildcard clause levels (traversal: both the hash-lookup fast path and the wildcard path run). Distinct: hash of the rendered keys.'),
     'assumptions': ['path clauses are non-empty and patterns do not end in a lone backslash (PutPathString and GetPathDepth count empty clauses differently; exercised only under C07)'],
     'targets': [
         {'name': 'c05_routing', 'src': ['harness/C05_routing.cpp'], 'quick_n': 300000, 'thorough_n': 2400000, 'maxlen': 300, 'min_nontrivial': 5000, 'budget': 120,
-         'class_floors': {'mode_routing': 100000, 'mode_traversal': 100000, 'case_two_keys_of_equal_depth': 50000, 'case_keys_of_different_depths': 20000, 'case_with_filters': 10000, 'case_key_mixing_literal_and_wildcard_levels': 20000, 'case_keyless_message_after_default_route_was_replaced': 500}},
+         'class_floors': {'mode_routing': 100000, 'mode_traversal': 100000, 'case_two_keys_of_equal_depth': 50000, 'case_keys_of_different_depths': 20000, 'case_with_filters': 10000, 'case_key_mixing_literal_and_wildcard_levels': 20000, 'case_keyless_message_after_default_route_was_replaced': 500, 'case_malformed_key_before_a_valid_one': 500}},
     ],
 }
 
@@ -408,7 +408,7 @@ CHECKS['C06'] = {
     'assumptions': [],
     'targets': [
         {'name': 'c06_isolation', 'src': ['harness/C06_isolation.cpp'], 'quick_n': 40000, 'thorough_n': 320000, 'maxlen': 600, 'min_nontrivial': 5000, 'budget': 30,
-         'class_floors': {'mode_isolation': 10000, 'mode_cleanup': 10000, 'case_adversary_addressed_victim_subtree': 3000, 'case_cut_strictly_inside_pending_output': 3000, 'privileged_commands_bounced': 1000}},
+         'class_floors': {'mode_isolation': 10000, 'mode_cleanup': 10000, 'case_adversary_addressed_victim_subtree': 3000, 'case_cut_strictly_inside_pending_output': 3000, 'privileged_commands_bounced': 1000, 'case_leaver_dropped_subscriptions_while_muted': 3000}},
     ],
 }
 
